@@ -40,6 +40,9 @@ bool thread_done(int t);   // client thread t has exited completely (thread-loca
 void sync_set(int i);      // set flag i (0..15)
 void sync_wait(int i);     // block until flag i is set
 void wait_exit(int t);     // block until client thread t has exited completely
+// --race: accesses made between these calls are harness bookkeeping and are neither recorded nor checked
+void race_ignore_begin();
+void race_ignore_end();
 void track_thread();       // must be called first thing in body (done by the runtime wrapper)
 bool weak_mode();
 // step-level traces: values that point into [base, base + count*elem) are logged as firstid + index (b = -2)
@@ -60,7 +63,7 @@ void dump_alloc_sites();   // emits one "ev" record per distinct caller of opera
 //   --shard i/n                   explore only part of the DFS tree
 //   --steps                       also log one event per atomic access (step level)
 //   --solo-every N                solo mode: probe every N-th scheduling point
-//   --weak W                      view-based weak-memory execution with staleness window W
+//   --race                        happens-before race detection from the declared memory orders and fences (events "race")
 int explore_main(int argc, char** argv, const std::function<Scenario(const std::string&)>& make);
 
 } // namespace xv
